@@ -248,7 +248,8 @@ def consumers(ctx, rule='A5c'):
             isinstance(x.slice, ast.Tuple) and len(x.slice.elts) == 2 and isinstance(x.slice.elts[0], ast.Slice) and
             x.slice.elts[0].lower is None and x.slice.elts[0].upper is None and isinstance(x.slice.elts[1], ast.Name)
             and isinstance(x.ctx, ast.Load)]
-    free_sel = [c_ for c_ in cols if any('fixed_values' in text_through_helpers(ctx.prog, m, a_.value)
+    free_sel = [c_ for c_ in cols if any(('fixed_values' in norm(a_) or
+                                          'fixed_values' in text_through_helpers(ctx.prog, m, a_.value))
                                          for a_ in walk_fn(m) if isinstance(a_, ast.Assign)
                                          and any(norm(t_) == c_.id or (isinstance(t_, ast.Subscript) and
                                                                        norm(t_.value) == c_.id) for t_ in a_.targets))]
